@@ -15,6 +15,42 @@ CHECKS = {
  "C11": ("exploration", "deterministic simulation with fault injection: seeded schedules and clock stalls at engine yield points, limit configurations around the reference model's sizes, goroutine census after every call; plus enumeration of the stall position over every scheduler step of a program catalogue",
          "Seeded exploration (programs x limit configurations x schedules x clock stalls) with oracles S1-S6 of DESIGN §3 C11 (no silent truncation, limits honoured, distinguishable and possible error, bounded call time, limits honoured by every constructor, no stranded goroutine), plus a fault-enumeration part that is exhaustive in the injection step of the stall for a fixed catalogue of small programs (reported under coverage.fault_enumeration). Sampling elsewhere.",
          "trusted: reference model for |lfp| and depth, synctest's durable-blocking detection, runtime.Stack for the goroutine census", "DESIGN.md §3 C11"),
+ "C01": ("exploration", "deterministic simulation with fault injection: multi-party histories (issuers, holders, verifiers) over a simulated transport on which a key-less adversary mutates in-flight tokens; oracle = independent wire decoder + ed25519 chain walk + ground-truth key ledger",
+         "Seeded exploration of derivation histories x 1-3 mutations per message drawn from 34 byte-level and structural mutation kinds; soundness (accepted => reference chain walk accepts and the authority block was signed by the issuer per the key ledger), completeness (well-formed and valid => accepted, including legitimately valid mutations such as appending with a captured next secret) and 'no Authorizer for a rejected token'. Sampling; ed25519 itself is trusted.",
+         "trusted: bsim/ref wire reader and chain walk, crypto/ed25519; mutation kinds are those listed in the evidence 'rule'", "DESIGN.md §3 C01"),
+ "C02": ("exploration", "deterministic simulation: delegation histories with hostile holders generating blocks against the verifier's policies; lineage invariant over the recorded history (model-free)",
+         "Seeded exploration of delegation chains (1-5 hops) whose appended blocks are generated against the token and the authorizer content; invariant allow(descendant) => allow(ancestor) for every ancestor verified with the same authorizer content. Model-free relational oracle, so a reference-model bug cannot raise a C02 alarm. Sampling; reach is that of the adversarial block generator.",
+         "trusted: nothing beyond the library's own verdict classification via errors.Is / nil", "DESIGN.md §3 C02"),
+ "C03": ("exploration", "deterministic simulation: twin delegation histories with and without check-free blocks at random chain positions; twin agreement (model-free)",
+         "Seeded exploration of twin lineages; agreement on verdict class, failed-check set (block indexes remapped through the known insertion positions) and query result sets. Visibility of authority/authorizer facts to later blocks is decided on the same runs by the reference verdict. Sampling.",
+         "trusted: the failed-check extraction regexp is applied identically to both twins of the same build", "DESIGN.md §3 C03"),
+ "C07": ("exploration", "deterministic simulation: every message honest parties put on the simulated wire is intercepted and decoded by an independent hand-written protobuf reader; byte-exact re-serialization; version-gate fault injected by an issuer-side re-sign",
+         "Seeded exploration of build / attenuate / seal / serialize / reload histories over generated block contents: decoded content, symbol-table rules and version must equal what the callers supplied; Unmarshal+Serialize must be the identity on bytes; reloaded tokens print, identify and authorize like the originals; unsupported versions must be rejected. Sampling.",
+         "trusted: bsim/ref wire reader (field numbers transcribed from pb/biscuit.proto), validated on the repository's sample tokens", "DESIGN.md §3 C07"),
+ "C08": ("exploration", "deterministic simulation: seeded interleavings of operations over a growing family of tokens/builders/blocks sharing ancestors; invariant 'fingerprint of every live object unchanged after every step'",
+         "Seeded exploration of 6-40 step histories; after every step every live token and built block is re-fingerprinted (String, Code, bytes, revocation ids, counts, root key id) and on creation each token is decoded independently and compared with exactly what its own callers put in. Sampling.",
+         "trusted: bsim/ref decoder for the creation-time content check; the fingerprint is the library's own observable surface", "DESIGN.md §3 C08"),
+ "C09": ("exploration", "deterministic simulation with fault injection: seal / reload / extend / tamper histories; sealed-vs-unsealed twin agreement plus transport tampering of the sealed envelope judged by the reference chain walk",
+         "Seeded exploration: twin agreement (verification result, verdict, failed checks, revocation ids) between a token, its sealed form and the sealed form reloaded from bytes; Append and Seal on sealed tokens (fresh and reloaded) must fail; tampered sealed envelopes must be rejected. Sampling.",
+         "trusted: bsim/ref chain walk for the tamper half; the twin half is model-free", "DESIGN.md §3 C09"),
+ "C12": ("exploration", "deterministic simulation: 2-4 verifier replicas receive the same logical request reordered / duplicated / renamed / retried; replica agreement (model-free)",
+         "Seeded exploration; replicas must agree on verdict class, number of failed checks, a query panel and the set of derived facts (one query per predicate); a repeated Authorize must equal the first. Sampling.",
+         "trusted: none beyond errors.Is classification; derived facts are observed through Query, not through PrintWorld text", "DESIGN.md §3 C12"),
+ "C13": ("exploration", "deterministic simulation with fault injection: request histories on one long-lived authorizer (any outcome per round, including tape-forced timeouts) with Reset between rounds; fresh-twin agreement per round (model-free)",
+         "Seeded exploration of 2-5 rounds per authorizer; each round's verdict, failed checks and query results must equal those of a freshly created authorizer given only that round's content; rounds are biased so that the previous round's facts would satisfy this round's checks. Sampling.",
+         "trusted: none beyond errors.Is classification", "DESIGN.md §3 C13"),
+ "C16": ("exploration", "deterministic simulation with fault injection: derivation histories x verifier key maps, root key id rewritten in transit; ledger of ids + exact-key selection judged by the reference chain walk",
+         "Seeded exploration over ids {absent, 0, 1, 2^31, 2^32-1, random}, all derivation orders (attenuate, seal, serialize, reload) and key maps with right keys under wrong ids and wrong keys under right ids. Sampling.",
+         "trusted: bsim/ref envelope decoder and chain walk", "DESIGN.md §3 C16"),
+ "C17": ("exploration", "deterministic simulation: derivation histories with fresh simulated entropy per signing event; prefix stability, independent signature extraction and a run-wide uniqueness registry",
+         "Seeded exploration biased to identical twins (same content signed twice on the same and on different parents). Sampling; uniqueness is checked within each run (the premise is fresh entropy per operation, which the simulator controls).",
+         "trusted: bsim/ref envelope decoder; crypto/ed25519 determinism", "DESIGN.md §3 C17"),
+ "C18": ("exploration", "deterministic simulation with fault injection: authorizer snapshot written to a simulated disk (clean, torn, short, bit-flipped, lost, unsynced), verifier crash and restart, reload; restored-vs-original twin agreement on the clean disk, no-panic / still-usable on the faulty disk",
+         "Seeded exploration; clean and faulty disk configurations are run separately so that the relaxation (no equivalence demanded after a disk fault) cannot hide an ordinary bug. Sampling.",
+         "trusted: none for the twin half (model-free); a corrupted snapshot that still decodes is a different valid policy, so only no-panic is demanded there", "DESIGN.md §3 C18"),
+ "C20": ("fault_enumeration", "deterministic simulation with fault injection: simulated entropy source failing at every byte position; exhaustive enumeration of the failure point",
+         "Fault enumeration: every drawing operation x failure kind x EVERY k in [0,32] x 4 chunkings (1188 cases, exhaustive in k) on every run of the check, plus seeded random cases in longer histories: an operation whose draw failed returns an error and no token, does not panic, leaves its parent untouched and can be retried; a returned token's next secret equals the bytes actually delivered, its announced key is that seed's public key, and it verifies.",
+         "trusted: bsim/ref envelope decoder, crypto/ed25519", "DESIGN.md §3 C20"),
 }
 
 NOT_APPLICABLE = {
